@@ -85,6 +85,40 @@ impl TilesReaderTrait for SparseMemReader {
 	}
 }
 
+/// A source whose single-tile lookups do not answer at once (as with real files, HTTP or a contended cache): the lookup
+/// suspends `yields` times before it returns. Earlier-listed sources get MORE suspensions from the drivers, so anything
+/// that depends on the order in which concurrent lookups complete shows.
+#[derive(Debug, Clone)]
+pub struct SlowMemReader {
+	pub inner: MemReader,
+	pub yields: usize,
+}
+
+#[async_trait]
+impl TilesReaderTrait for SlowMemReader {
+	fn get_source_name(&self) -> &str {
+		&self.inner.name
+	}
+	fn get_container_name(&self) -> &str {
+		"mem"
+	}
+	fn get_parameters(&self) -> &TilesReaderParameters {
+		&self.inner.params
+	}
+	fn override_compression(&mut self, tile_compression: TileCompression) {
+		self.inner.params.tile_compression = tile_compression;
+	}
+	fn get_tilejson(&self) -> &TileJSON {
+		&self.inner.tilejson
+	}
+	async fn get_tile_data(&self, coord: &TileCoord3) -> Result<Option<Blob>> {
+		for _ in 0..self.yields {
+			tokio::task::yield_now().await;
+		}
+		Ok(self.inner.tiles.get(coord).cloned())
+	}
+}
+
 /// Deterministic payload bytes for a payload id: equal ids are byte-equal, different ids differ.
 /// `size` bytes; `compressible` chooses repetitive or pseudo-random content. The id is embedded at the start.
 pub fn payload(id: u32, size: usize, compressible: bool) -> Vec<u8> {
